@@ -21,8 +21,8 @@ type apt struct {
 }
 
 var (
-	wSecp  = &wcurve{hexInt("FFFFFFFFFFFFFFFFFFFFFFFFFFFFFFFFFFFFFFFFFFFFFFFFFFFFFFFEFFFFFC2F"), big.NewInt(0), big.NewInt(7)}
-	wP256  = &wcurve{hexInt("FFFFFFFF00000001000000000000000000000000FFFFFFFFFFFFFFFFFFFFFFFF"), hexInt("FFFFFFFF00000001000000000000000000000000FFFFFFFFFFFFFFFFFFFFFFFC"), hexInt("5AC635D8AA3A93E7B3EBBD55769886BC651D06B0CC53B0F63BCE3C3E27D2604B")}
+	wSecp   = &wcurve{hexInt("FFFFFFFFFFFFFFFFFFFFFFFFFFFFFFFFFFFFFFFFFFFFFFFFFFFFFFFEFFFFFC2F"), big.NewInt(0), big.NewInt(7)}
+	wP256   = &wcurve{hexInt("FFFFFFFF00000001000000000000000000000000FFFFFFFFFFFFFFFFFFFFFFFF"), hexInt("FFFFFFFF00000001000000000000000000000000FFFFFFFFFFFFFFFFFFFFFFFC"), hexInt("5AC635D8AA3A93E7B3EBBD55769886BC651D06B0CC53B0F63BCE3C3E27D2604B")}
 	wPallas = &wcurve{hexInt("40000000000000000000000000000000224698fc094cf91b992d30ed00000001"), big.NewInt(0), big.NewInt(5)}
 	wVesta  = &wcurve{hexInt("40000000000000000000000000000000224698fc0994a8dd8c46eb2100000001"), big.NewInt(0), big.NewInt(5)}
 	wBlsG1  = &wcurve{hexInt("1a0111ea397fe69a4b1ba7b6434bacd764774b84f38512bf6730d2a0f6b0f6241eabfffeb153ffffb9feffffffffaaab"), big.NewInt(0), big.NewInt(4)}
